@@ -53,6 +53,14 @@ func Corpus() []NamedCase {
 			{From: "S", Kind: "push", ID: 1, Promise: 2, Fields: reqFields, Splits: []int{5}, Valid: true}}, true},
 		{"max-frame-size-lowered-while-queued", []Op{settings("S", 4, 10, 5, 32768), ack("C"), hdr("C", 1, false, reqFields),
 			data("C", 1, 30000, true), settings("S", 5, 16384), ack("C"), winupd("S", 1, 40000)}, true},
+		{"negative-window-then-grant", []Op{settings("S", 4, 50), ack("C"), hdr("C", 1, false, reqFields), data("C", 1, 40, false),
+			settings("S", 4, 10), ack("C"), winupd("S", 1, 35), data("C", 1, 20, false), winupd("S", 1, 10), winupd("S", 1, 10)}, true},
+		{"early-stream-window-update", []Op{settings("S", 4, 5), ack("C"), winupd("S", 1, 30), hdr("C", 1, false, reqFields),
+			data("C", 1, 30, true)}, true},
+		{"priority-weight-only-full-frame", []Op{{From: "C", Kind: "headers", ID: 1, End: true, Prio: &Prio{Dep: 0, Excl: false, Weight: 9},
+			Fields: []Field{{N: ":method", V: "GET"}, {N: "x-big", V: "b", R: []int{3, 16500}}}, Valid: true}}, true},
+		{"empty-header-block-trailers", []Op{hdr("C", 1, false, reqFields), data("C", 1, 3, false), hdr("C", 1, true, nil),
+			hdr("S", 1, false, respFields), hdr("S", 1, true, nil, 0)}, true},
 		{"window-blocking", []Op{settings("S", 4, 10), ack("C"), hdr("C", 1, false, reqFields), data("C", 1, 25, true),
 			winupd("S", 1, 5), winupd("S", 1, 10), winupd("S", 0, 1)}, true},
 	}
